@@ -48,10 +48,10 @@ struct _table_pdk13 table_pdk13[] =
   { "mov.io",  0x0080, 0xffe0, OP_IO_A, 1, 1 },
   { "mov.io",  0x00a0, 0xffe0, OP_A_IO, 1, 1 },
   // 16 bit memory operations.
-  { "stt16",   0x00c0, 0xff81, OP_M4,   1, 1 },
-  { "ldt16",   0x00c1, 0xff81, OP_M4,   1, 1 },
-  { "idxm",    0x00e0, 0xff81, OP_M4_A, 2, 2 },
-  { "idxm",    0x00e1, 0xff81, OP_A_M4, 2, 2 },
+  { "stt16",   0x00c0, 0xffe1, OP_M4,   1, 1 },
+  { "ldt16",   0x00c1, 0xffe1, OP_M4,   1, 1 },
+  { "idxm",    0x00e0, 0xffe1, OP_M4_A, 2, 2 },
+  { "idxm",    0x00e1, 0xffe1, OP_A_M4, 2, 2 },
   // Return with A.
   { "ret",     0x0100, 0xff00, OP_K8,   1, 1 },
   // Bit operations with memory.
